@@ -19,13 +19,14 @@ Operands(P) == {<<O(m, b)>> : m \in Cand(P), b \in BOOLEAN}
                \cup (IF Lists THEN {<<O(a, FALSE), O(b, c)>> : a \in Own(P), b \in Cand(P), c \in BOOLEAN} ELSE {})
 Next ==
   \/ \E P \in 1..2, m \in Mods : Do("attach", <<P, m>>, Lift(w, Attach(w.p, P, m)))
+  \/ \E P \in 1..2, m \in Mods \ {1, 2} : Do("attach_end", <<P, m>>, Lift(w, AttachEnd(w.p, P, m)))
   \/ \E P \in 1..2 : Do("attach_none", <<P>>, Lift(w, AttachNone(w.p, P)))
   \/ \E P \in 1..2, q \in 0..NP : Do("attach_pattern", <<P, q>>, Lift(w, AttachPattern(w.p, P, q)))
   \/ \E P \in 1..2 : \E A \in Operands(P), B \in Operands(P) : Do("connect", <<P, A, B>>, SysConnect(w, P, A, B))
   \/ \E P \in 1..2 : Do("saveload", <<P>>, SysSaveLoad(w, P))
   \/ \E m \in Mods \ {1, 2}, v \in {-1, 0, 700, 1024, 1025} : Do("set_volume", <<m, v>>, SysSetVol(w, m, v))
   \/ Do("failed_load", <<>>, SysFailedLoad(w))
-  \/ \E n \in 0..(NM + 1), fail \in BOOLEAN : Do("bulk_edit", <<1, n, fail>>, SysBulk(w, 1, n, fail))
+  \/ \E n \in 0..(NM + 1), fail \in BOOLEAN, sparse \in BOOLEAN : Do("bulk_edit", <<1, n, fail, sparse>>, SysBulk(w, 1, n, fail, sparse))
   \/ \E src \in Mods \ {1, 2}, dst \in Mods \ {1, 2} : src # dst /\ w.p.parent[dst] = 0 /\ Do("clone_module", <<src, dst>>, SysClone(w, src, dst))
   \* pattern 1 is a Pattern with a note cell; even pattern ids stand for PatternClone objects
   \/ \E q \in {1}, m \in Mods : Do("set_note_mod", <<q, m>>, Lift(w, SetNoteMod(w.p, q, m)))
